@@ -21,12 +21,16 @@ func init() {
 		Rule: "Each case is a history of 20-200 value reports (which source, which fields set, valid/invalid/ill-typed) against a real Dials[Cfg] with 2-4 watching sources of the same Go type. " +
 			"Sequential phases use blocking reports and compare, at every k-th quiescent point, View() with (a) a brand-new dials.Config over static sources holding each source's latest value (or the last verified view when that fresh stack fails) and (b) the reference stack; " +
 			"concurrent phases run all reporters at once with spinning readers and an Events consumer, then compare at the end. A serial monitor collects every (serial, config pointer) pair seen by any reader, callback, Events or the mon.stored hook: " +
-			"install serials must be contiguous from 1, the pairing injective both ways, every reader and the Events stream non-decreasing. distinct_nontrivial = distinct (nsrc, source-order, outcome) signatures with >=2 sources reporting and >=1 field unset again by a later layer of the same source.",
+			"install serials must be contiguous from 1, the pairing injective both ways, every reader and the Events stream non-decreasing. " +
+			"Two families of purely sequential histories (4 of every 30 cases) add: watchers saying Done in any order and any number of times while the watchers that have not said Done go on reporting (every one of their reports must be taken; the monitor's done channel closing while one of them still watches is judged as such), " +
+			"and DelayInitialVerification histories with values that do not verify and EnableVerification calls (failing and succeeding) at any point, compared with a fresh Params{DelayInitialVerification}.Config until a call has succeeded and with a fresh verifying Config afterwards. distinct_nontrivial = distinct (nsrc, source-order, outcome) signatures with >=2 sources reporting and >=1 field unset again by a later layer of the same source; a Done or delayed-verification history counts by its (nsrc, sequence of source/outcome, Done and EnableVerification steps) signature.",
 		Assumptions: []string{"fresh-stack oracle is dials.Config itself over static sources (real code), cross-checked with the harness reference stack"},
 		MinDistinct: map[string]int{"quick": 700, "thorough": 50000},
 		MinCounters: map[string]map[string]int64{
-			"quick":    {"fresh_stack_comparisons": 1500, "installs_observed": 5000, "serial_pairs_checked": 20000},
-			"thorough": {"fresh_stack_comparisons": 80000, "installs_observed": 400000},
+			"quick": {"fresh_stack_comparisons": 1500, "installs_observed": 5000, "serial_pairs_checked": 20000,
+				"reports_after_a_repeated_done": 200, "nonverifying_installs_after_a_failed_enableverification": 40, "fresh_stack_comparisons_with_verification_delayed": 80},
+			"thorough": {"fresh_stack_comparisons": 80000, "installs_observed": 400000,
+				"reports_after_a_repeated_done": 10000, "nonverifying_installs_after_a_failed_enableverification": 2000},
 		},
 		Plan: func(tier string) fw.Plan {
 			if tier == "thorough" {
@@ -141,8 +145,15 @@ func c05ParkedCallback(w *fw.Worker, i int, r *fw.Rand) {
 
 func runC05(w *fw.Worker) {
 	w.Cases(func(i int, r *fw.Rand) {
-		if i%30 == 11 {
+		switch i % 30 {
+		case 11:
 			c05ParkedCallback(w, i, r)
+			return
+		case 2, 17:
+			c05DoneHistory(w, i, r)
+			return
+		case 8, 23:
+			c05DelayedHistory(w, i, r)
 			return
 		}
 		o := conc.Opts{NSrc: r.Range(2, 4), Skip: r.Chance(15), StaticFirst: r.Chance(15), SlowCB: r.Intn(2)}
